@@ -436,46 +436,36 @@ theorem bifMin_eq (vs : List DTValue) : bifMin vs = Spec.min vs := by
     · rw [minStrLoop_eq]
       cases Spec.allStrs vs <;> simp
 
-/-- No null among the items. -/
-def noNull (vs : List DTValue) : Bool := vs.all (· ≠ .null)
-
-theorem maxNumLoop_eq (m : Int) (vs : List DTValue) (h : noNull vs = true) :
+theorem maxNumLoop_eq (m : Int) (vs : List DTValue) :
     maxNumLoop m vs = match Spec.allNums vs with
       | some ns => .num (Spec.maxInt m ns)
       | none => .null := by
   induction vs generalizing m with
   | nil => simp [maxNumLoop, Spec.allNums, Spec.maxInt]
   | cons v vs ih =>
-    simp only [noNull, List.all_cons, Bool.and_eq_true] at h
-    have h' : noNull vs = true := h.2
     cases v <;> simp only [maxNumLoop, Spec.allNums]
-    · simp at h
-    · rw [ih _ h']
-      cases Spec.allNums vs <;> simp [Spec.maxInt]
+    rw [ih]
+    cases Spec.allNums vs <;> simp [Spec.maxInt]
 
-theorem maxStrLoop_eq (m : List Char) (vs : List DTValue) (h : noNull vs = true) :
+theorem maxStrLoop_eq (m : List Char) (vs : List DTValue) :
     maxStrLoop m vs = match Spec.allStrs vs with
       | some ss => .str (Spec.maxStr m ss)
       | none => .null := by
   induction vs generalizing m with
   | nil => simp [maxStrLoop, Spec.allStrs, Spec.maxStr]
   | cons v vs ih =>
-    simp only [noNull, List.all_cons, Bool.and_eq_true] at h
-    have h' : noNull vs = true := h.2
     cases v <;> simp only [maxStrLoop, Spec.allStrs]
-    · simp at h
-    · rw [ih _ h']
-      cases Spec.allStrs vs <;> simp [Spec.maxStr]
+    rw [ih]
+    cases Spec.allStrs vs <;> simp [Spec.maxStr]
 
-theorem bifMax_eq (vs : List DTValue) (h : noNull vs.tail = true) : bifMax vs = Spec.max vs := by
+theorem bifMax_eq (vs : List DTValue) : bifMax vs = Spec.max vs := by
   cases vs with
   | nil => simp [bifMax, Spec.max, Spec.allNums, Spec.allStrs]
   | cons v vs =>
-    simp only [List.tail_cons] at h
     cases v <;> simp only [bifMax, Spec.max, Spec.allNums, Spec.allStrs]
-    · rw [maxNumLoop_eq _ _ h]
+    · rw [maxNumLoop_eq]
       cases Spec.allNums vs <;> simp
-    · rw [maxStrLoop_eq _ _ h]
+    · rw [maxStrLoop_eq]
       cases Spec.allStrs vs <;> simp
 
 /-- `minInt` is the minimum: a member, and a lower bound. -/
